@@ -620,7 +620,7 @@ async def _run(ctx, loop):
             # cells that arrive after it has forwarded max_relay_early cells, so re-ordering within the first 8 cells
             # of a circuit can lose (never misdeliver) a cell
             await transfer_check(ctx, tn, book, r, circuits, {"kind": "warm-up", "net": ni}, rounds=8, pick=None)
-            n_inter = 100 if ctx.quick else 500
+            n_inter = 100 if ctx.quick else 300
             rounds = 0
             while rounds < n_inter:
                 k = r.choice([1, 2, 3])
@@ -760,7 +760,7 @@ def run(ctx):
     ctx.assumptions = ["nodes of one overlay share the 22-byte prefix", "circuit ids are 32-bit", "do_ping disabled in the harness nodes"]
     in_loop(lambda loop: _run(ctx, loop))
     ctx.coverage["rule"] = ("quick: 2 networks (3-4 relays, 2 exits) x 3-4 concurrent circuits of 1..3 hops built under observation, 100 rounds each of "
-                            "tagged data both ways on all circuits at once with deliveries in random order (thorough: 6 networks, 4-6 circuits, 500 rounds); "
+                            "tagged data both ways on all circuits at once with deliveries in random order (thorough: 6 networks, 4-6 circuits, 300 rounds); "
                             "forged cells (unknown id / garbage / other circuit's body / outsider keys) at every entry of every circuit; creates under live "
                             "relay-in / relay-out / exit / own-circuit ids within and after the 60 s cache; destroy matrix {own, other, unknown id} x {adjacent, "
                             "other member, outsider} x {signature ok, bad, key substituted} x {relay-in, relay-out, exit, circuit} + the legitimate destroys; "
